@@ -16,18 +16,18 @@ import (
 const repoModule = "github.com/grafana/carbon-relay-ng"
 
 type Ctx struct {
-	prog     *ssa.Program
-	pkgs     []*ssa.Package
-	byName   map[string]*ssa.Package
-	specs    *Specs
-	mu       sync.Mutex
-	loops    map[*ssa.Function]map[*ssa.BasicBlock]*Loop
-	typeIDs  map[string]int
-	typeOf   map[int]types.Type
-	impls    map[string][]types.Type
-	allTypes []types.Type
-	repoDir  string
-	skips    map[*ssa.Function]map[ssa.Instruction]bool
+	prog      *ssa.Program
+	pkgs      []*ssa.Package
+	byName    map[string]*ssa.Package
+	specs     *Specs
+	mu        sync.Mutex
+	loops     map[*ssa.Function]map[*ssa.BasicBlock]*Loop
+	typeIDs   map[string]int
+	typeOf    map[int]types.Type
+	impls     map[string][]types.Type
+	allTypes  []types.Type
+	repoDir   string
+	skips     map[*ssa.Function]map[ssa.Instruction]bool
 	localsRef map[string][]localRef // named locals of the functions under contract when the contracts were written
 }
 
@@ -91,7 +91,12 @@ func (c *Ctx) typeID(t types.Type) int {
 	if id, ok := c.typeIDs[k]; ok {
 		return id
 	}
-	id := len(c.typeIDs) + 1
+	// even ids: pointer-shaped dynamic values (the interface's reference is the value);
+	// odd ids: values kept in a box (see binop on interfaces)
+	id := 2 * (len(c.typeIDs) + 1)
+	if kindOf(t) != KRef {
+		id++
+	}
 	c.typeIDs[k] = id
 	c.typeOf[id] = t
 	return id
